@@ -415,7 +415,7 @@ _quick("C07", "C07_program", "every program of 5 operations persisted at once, f
 
 _quick("C09", "C09_backpressure", "the follower's live-stream reader (real ReplicationClient.Process) over 700 records with its three pipeline stages scheduled by the harness: two stages keep up, the third (replay / append / re-publish) takes one record in hand after 0 / 100 / 250 records and stalls until its queue is full, then catches up; every stage sees every record once, in order, with the content it was sent with (a receive buffer is never refilled while a stage still holds it)", [], reach=["end", "stalled-full"], native=False)
 
-_quick("C10", "C10_stepdown", "a leader with a holder (E = 3 s) and a queued client request steps down through the real SLock.updateState to each of the five non-leader states; inside the step-down's wait (ReplicationManager.WaitServerSynced replaced by a harness function) one event happens: the holder's deadline passes (6 s through the real sweeps), a client LOCK on another key, the holder's client UNLOCK — nothing granted or released, STATE_ERROR to the client", [], reach=["end"], native=False)
+_quick("C10", "C10_stepdown", "a leader with a holder (E = 3 s) and a queued client request steps down through the real SLock.updateState to each of the five non-leader states; inside the step-down's wait (ReplicationManager.WaitServerSynced replaced by a harness function) one event happens: the holder's deadline passes (6 s through the real sweeps), a client LOCK on another key, the holder's client UNLOCK — nothing granted or released, STATE_ERROR to the client; optionally the node has a second database with id 3 (sparse ids): every database has the new role afterwards and refuses a client LOCK", [], reach=["end", "sparse"], native=False)
 _quick("C11", "C11_lateack", "key of capacity 5 with a plain holder; ack-required lock A goes pending (1..2 followers, mode all), the persistence channel drained before or only after A's wait times out; exactly one error reply; ack-required lock B (same or another LockId) goes pending; 1..F positive acknowledgements naming A's record arrive late; then B's own flush report and F acknowledgements in both orders: B is answered SUCCED exactly once and only after its own acknowledgements", ["-witness", "1"], reach=["end", "a-timed-out", "late-acks"])
 
 _quick("C15", "C17_recycle", "(also under C17) 5..8 keys with values on a fast key table of 4 slots (some parked in the long-expiry table), all released, wheel swept, then 24 fresh keys one after the other: a key that was never given a value is never shown one (no value left on a key manager recycled through the pool)", ["-witness", "1"])
@@ -464,3 +464,5 @@ _quick("C18", "C18_keepalive", _KEEPALIVE, ["-witness", "1"], reach=["end", "clo
 _quick("C05", "C18_keepalive", "(also under C18) " + _KEEPALIVE, ["-witness", "1"], reach=["end"])
 
 _quick("C07", "C16_update", "(also under C16) a persisted hold whose holder changes its terms one second later (update: E=200/300, optionally Count 3), 0 / 1 / 3 / 70 s pass, rotation, compaction, restart: the hold comes back with the deadline, Count and Rcount its last update gave it", ["-witness", "1"], reach=["end"])
+
+_quick("C11", "C11_sharedfail", "a key of capacity 2: a plain holder keeps one slot, an ack-required lock goes pending on the other, a third request queues; the acknowledgement fails (negative follower ack / the wait runs out): one error reply, the hold gone, the queued request granted the freed slot although the key still has another holder", ["-witness", "1"], reach=["end", "nack", "ack-timeout"])
